@@ -4,7 +4,7 @@
 (* deterministic scheduler:                                                *)
 (*   o = [graph, prog, results (seq of [op, url, res, sig, obj]),          *)
 (*        errs (seq: exception of every thread, "none" if it finished),    *)
-(*        deadlock, cached (urls with a cache file), fetchok, expected]    *)
+(*        deadlock, cache_before, cache_after, fetchok, expected]          *)
 (* expected[url] is what parsing the resource directly and finalising it   *)
 (* gives ("none" if it cannot be fetched or parsed), computed from the     *)
 (* include graph alone.                                                    *)
@@ -14,9 +14,14 @@ Raised(o) == {o.results[i].res : i \in DOMAIN o.results} \cup {o.errs[i] : i \in
 NoRaise(o) == Raised(o) \subseteq {"ok", "none"}
 Transparent(o) == \A i \in DOMAIN o.results :
                      (o.results[i].op = "load" /\ o.results[i].res = "ok") => o.results[i].sig = o.expected[o.results[i].url]
+\* "later loads return the same cached object until refresh": compared within one epoch
+Epoch(o, i) == Cardinality({j \in 1..i : o.results[j].op = "refresh"})
 SameCached(o) == \A i, j \in DOMAIN o.results :
                      (o.results[i].op = "load" /\ o.results[j].op = "load" /\ o.results[i].url = o.results[j].url
-                      /\ o.results[i].res = "ok" /\ o.results[j].res = "ok") => o.results[i].obj = o.results[j].obj
-CacheSafe(o) == \A i \in DOMAIN o.cached : o.fetchok[o.cached[i]]
+                      /\ o.results[i].res = "ok" /\ o.results[j].res = "ok" /\ Epoch(o, i) = Epoch(o, j)) => o.results[i].obj = o.results[j].obj
+\* cache_before / cache_after[url]: "absent" | "current" | "old" | "other" - the cache file of url at the start / the end
+\* "a fetch that fails never creates or overwrites a cache file"; and no cache file ever holds anything but a resource's text
+CacheSafe(o) == /\ \A x \in DOMAIN o.fetchok : ~o.fetchok[x] => o.cache_after[x] = o.cache_before[x]
+                /\ \A x \in DOMAIN o.fetchok : o.cache_after[x] # "other"
 Terminates(o) == ~o.deadlock
 ====
